@@ -73,6 +73,7 @@ fn main() {
     let drop_prob = args.u64("drop-percent", 0);
     let max_violations = args.u64("max-violations", 5) as usize;
     let light = args.u64("light", 0) == 1;
+    let keyfaults = args.u64("key-faults", 0) == 1;
 
     // The histories run in a worker thread; this thread only watches for the one thing no in-process
     // monitor can report: a call that blocks forever (a lock taken twice by the same thread). The
@@ -104,6 +105,7 @@ fn main() {
         let opts = RunOpts { known: known.clone(), stop_at_first: true, drop_at, light, prop: prop.clone() };
         let mut d = Driver::new(&cfg, opts);
         let mut gen = Gen::new(rng.fork(), profile);
+        gen.keyfaults = keyfaults;
         let mut ops: Vec<Op> = Vec::with_capacity(nops);
         *CURRENT.lock().unwrap() = cfg.to_line() + "\n";
         for _ in 0..nops {
@@ -201,7 +203,10 @@ fn main() {
             mmv::report::exit_now(0);
         }
     }
-    let _ = worker.join();
+    if worker.join().is_err() {
+        eprintln!("seqmon: the worker thread panicked: {:?}", mmv::monitor::take_panic());
+        std::process::exit(3);
+    }
 }
 
 static CURRENT: std::sync::Mutex<String> = std::sync::Mutex::new(String::new());
